@@ -48,7 +48,7 @@ def obj_depth(obj) -> int:
 
 
 class Val:
-    __slots__ = ("ty", "pts", "dep", "mdep", "kind", "fsrc", "const", "elem", "items", "dmap", "_h")
+    __slots__ = ("ty", "pts", "dep", "mdep", "kind", "fsrc", "const", "elem", "items", "dmap", "_h", "_b")
 
     def __init__(
         self,
@@ -74,6 +74,7 @@ class Val:
         self.items = items
         self.dmap = dmap  # tuple of (key, Val) for dict literals
         self._h = None
+        self._b = None
 
     # -- structural equality ------------------------------------------------
     def key(self):
@@ -215,7 +216,9 @@ class Val:
 
     def is_bound(self) -> bool:
         """a bound-method value: `items` holds the receiver, not elements"""
-        return any(t.startswith(("bfunc:", "umeth:")) for t in self.ty)
+        if self._b is None:
+            self._b = any(t.startswith(("bfunc:", "umeth:")) for t in self.ty)
+        return self._b
 
     def iter_join(self) -> Optional["Val"]:
         """joined value of the elements (elem / items / dict keys)"""
